@@ -100,7 +100,7 @@ class C16(core.Check):
             for b2 in {None, 1, n, n + 1, max(1, n - 1)} - {bs}:
                 r2 = ck.run_mapper(col, ser, bs=b2)
                 if r2['out'] != r['out']:
-                    return viol(f'batched and unbatched results differ (batch_size {bs} vs {b2})', r['out'], r2['out'])
+                    return viol('batched and unbatched results differ', r['out'], {'batch_size': b2, 'out': r2['out']})
             if col['kind'] in ('tok_map', 'tok_list') and col['W'] is not None:
                 other = dict(col, kind='tok_list' if col['kind'] == 'tok_map' else 'tok_map')
                 r3 = ck.run_mapper(other, ser)
